@@ -727,7 +727,7 @@ def all_cases(tier):          # noqa: F811  (extends the list defined above)
     cs = [sph_def_case(), sph_back_case(), cyl_case(), cyl_back_case()]
     for fam in ("ell", "hyp"):
         cs += [ecc_case(fam), ecc_back_case(fam), mean_case(fam), k2c_case(fam), kck_case(fam, 30 if tier == "quick" else 600),
-               m2e_case(fam, (8 if tier == "quick" else 11) + (1 if fam == "hyp" else 0)), m2e_start_case(fam), infos_case(fam)]
+               m2e_case(fam, 8 if tier == "quick" else 11), m2e_start_case(fam), infos_case(fam)]
     cs += [tle_case(), tle_back_case(), circ_case(False), circ_case(True), equi_case(), c2k_def_case("any")]
     return cs
 
